@@ -77,7 +77,10 @@ fn main() {
         })
     }));
     match res {
-        Ok(Some((nt, rule))) => std::process::exit(ctx.finish(nt, &rule)),
+        Ok(Some((nt, rule))) => {
+            props::neutral::check(&mut ctx, &id);
+            std::process::exit(ctx.finish(nt, &rule))
+        }
         Ok(None) => {
             eprintln!("unknown property {}", id);
             std::process::exit(2);
